@@ -12,12 +12,13 @@ namespace Life
 
 /-- position of a kind in the documented initialisation order (`init` and `power` share one) -/
 def Kind.rank : Kind → Nat
-  | .pre => 0 | .conn => 1 | .init => 2 | .power => 2 | .shell => 3 | .post => 4 | .hook => 5
+  | .pre => 0 | .host => 1 | .conn => 2 | .init => 3 | .power => 3 | .shell => 4 | .post => 5 | .hook => 6
 
-/-- the documented order: pre-connect steps, the connection, the initialisers in class order,
-    the shell, the post-shell steps, the `init` hook -/
+/-- the documented order: pre-connect steps, the connection (for a console connector: the
+    lab-host clone, then the console), the initialisers in class order, the shell, the post-shell
+    steps, the `init` hook -/
 def specOrder (mro : List Step) : List Step :=
-  (List.range 6).flatMap fun r => mro.filter fun s => s.kind.rank == r
+  (List.range 7).flatMap fun r => mro.filter fun s => s.kind.rank == r
 
 /-- the callbacks that begin a step, in order -/
 def beginEvs (s : Step) : List Ev :=
